@@ -19,7 +19,7 @@ import common
 import style_util as su
 from style_util import Cfg
 
-ALPHABET = list('at1#.-+()"\'$:!,{}@ %/A_0*[e\\=') + ['٣', '\n', 'é', '\x0c', '\u2028', '\r']
+ALPHABET = list('at1#.-+()"\'$:!,{}@ %/A_0*[e\\=') + ['٣', '\n', 'é', '\x0c', '\u2028', '\r', '²', '①', '٫']
 VALID = ['p10', 'm10-20', 'bd1-s#fc0', 'c#f.5!', 'p10+m10-20', 'trf-s(2, 3)', 'lg(to right, #0, #f00.5)', '@k-name10', 'pos:a',
          'bgc#f0', 'fz1.', 'p-10--20', 'm0-a', '!', 'p!', 'bxsh', 'gt', 'p10p', 'z10', 'opa.1', 'trf:rx', 'd:n', 'p${1}', 'p${1:foo}',
          'c#e7bc0b', 'animic', '--foo', 'p--foo:1', 'ff"Arial"', "cnt'x'", 'w100%', 'mt-.5e', 'anim-infinite', 'p1 2', 'bd(1)',
